@@ -3,9 +3,11 @@
 
 pub mod c01;
 pub mod c02;
+pub mod c03;
 pub mod c06;
 pub mod c19;
 pub mod enc;
+pub mod gad;
 pub mod sch;
 
 use pzv_common::driver::{Ctx, install_panic_hook, read_replay};
@@ -23,6 +25,7 @@ fn main() {
         let code = match prop.as_str() {
             "C01" => c01::replay(&ctx, &sub, &case),
             "C02" => c02::replay(&ctx, &sub, &case),
+            "C03" => c03::replay(&ctx, &sub, &case),
             "C06" => c06::replay(&ctx, &sub, &case),
             "C19" => c19::replay(&ctx, &sub, &case),
             _ => {
@@ -46,6 +49,10 @@ fn main() {
         "C02" => {
             c02::run_all(&ctx);
             ctx.finish(c02::RULE, &["operands are generated limb vectors, not encryptions: the property is linear algebra and needs no key", "programs keep digits below 2^61 (radix <= 40, <= 12 steps)"], &[("rank0_operand", 100), ("cross_radix", 100), ("program_len>=3", 100)])
+        }
+        "C03" => {
+            c03::run_all(&ctx);
+            ctx.finish(c03::RULE, &["the clear secrets are read through hook H4", "FFT64 cases keep N * digits * columns * 2^(2(b-1)) inside the exactness domain of DESIGN C07, so the gadget product is exact integer arithmetic and the bound needs no floating-point term", "inputs are arbitrary normalised GLWE-shaped vectors (valid ciphertexts of their own phase), keys come from the library's key-encryption routines"], &[("a_size_not_multiple_of_dsize", 100), ("three_way_radix", 100), ("rank_in!=rank_out", 100), ("bound<2^-8", 1000)])
         }
         "C06" => {
             c06::run_all(&ctx);
